@@ -1,4 +1,4 @@
-FIX_COMMITS = ['056fe00 (C14)', '194b898 (C18)', 'e5d1f9f (C05 sweep tie-break)', 'c0a262c (C10)', '7c606c6 (C20)', 'cbc693c (C05/C06 BP-OSD)', 'a832f8b (C06 XCube)', 'a7ca295 (C05 MBP)']
+FIX_COMMITS = ['056fe00 (C14)', '194b898 (C18)', 'e5d1f9f (C05 sweep tie-break)', 'c0a262c (C10)', '7c606c6 (C20)', 'cbc693c (C05/C06 BP-OSD)', 'a832f8b (C06 XCube)', 'a7ca295 (C05 MBP)', '0d33a68 (C12)']
 CHECKS = {
  'C14': dict(category='proof',
    text='For all (n_nodes, n_cores, n_inputs, trials, job_idx) - no bound - the body of run_parallel is executed symbolically and 10 '
@@ -94,5 +94,21 @@ CHECKS['C05'] = dict(category='other',
         'reproduced, trivial->trivial) over every decoder x allowed codes x random-error syndromes is a bounded run-time contract; known findings F-C05-b/c are listed.',
    note='Assumed, not proved: PyMatching / ldpc / union-find Support return a solution of H c = s. Union-find internals (uf_support.py) are not analysed at all. Level "other".',
    technique='symbolic execution of the real wiring code against typed stand-ins of third-party decoders; z3 for the array/prior identities; run-time contracts')
+CHECKS['C11'] = dict(category='other',
+   text='run_once is executed symbolically against tagged stand-ins: every recorded field is shown to be the named function of error / correction (syndrome of the generated error, decoder '
+        'called on that syndrome, effective error and codespace of (correction+error) mod 2, success <=> codespace and zero effective error; rates outside [0,1] raise); one generic iteration of '
+        'DirectSimulation._run appends exactly one value per recorded list and increments n_runs (inductive step of len == n_runs); get_results is n_fail/n_runs with the stated standard error; '
+        'a dependence analysis shows that run_once, generate, fast_choice and every decode() read no global random state on the seeded path. Calibration is a stated lemma over C04+C06+C07, '
+        'cross-checked exactly (no statistics) by summing the channel over all 4^n errors on small codes; seeded runs are repeated in fresh processes and in chunks (bounded).',
+   note='Assumed: numpy Generator determinism; C04/C06/C07 for the calibration lemma. Level "other": the unbiasedness claim itself is a composition lemma, not a discharged VC.',
+   technique='VCs from symbolic execution of run_once / _run body / get_results; dependence analysis for RNG threading; exact 4^n enumeration as bounded cross-check')
+CHECKS['C12'] = dict(category='other',
+   text='Crash-atomicity of save_json is a crash-invariant obligation over an assumed POSIX effect model, decided on the AST (only effect on the results file: os.replace of a fully written, '
+        'closed temporary file); the adoption rule of load_results (first record with equal inputs, only existing keys) and the counting invariant of BatchSimulation._run (init/step/final: '
+        'exactly max(N, n0) trials per simulation; a save in the last iteration) are discharged by z3 from the symbolically executed bodies. The real BatchSimulation is killed with os._exit at '
+        'EVERY file-system effect point of a run (plain and gzip), restarted with more trials / an appended simulation, and the post-condition checked (exhaustive over effect points for the '
+        'stated scenario).',
+   note='Assumed: the POSIX model (truncate on open-for-write, prefix-closed writes, atomic replace, durable close). Byte-level torn states exist only through this model. Level "other".',
+   technique='crash-invariant over an assumed effect model on the AST; z3 inductive invariant for the trial loop; kill-at-every-effect replay')
 _PENDING = 'check under construction in this session (contract-based check planned in DESIGN.md section 3); not claimed until its command exists'
 NOT_APPLICABLE = {p: _PENDING for p in ['C%02d' % i for i in range(1, 21)]}
